@@ -141,6 +141,19 @@ kern_cfg = rename(bind_config(kern, kern.find("s"), Cfg, "scale"), "kern_cfg")
 kern_wcfg = rename(write_config(kern, kern.body()[0].before(), Cfg, "bias", "s"), "kern_wcfg")
 
 
+# a caller of the configuration-writing variant: swapping *back* to the original (which no longer writes the field)
+# changes the final value of Cfg.scale, so the swap must report that field (or be refused)
+@proc
+def user_of_kern_cfg(n: size, x: f32[n], s: f32):
+    Cfg.scale = 3.0
+    kern_cfg(n, x, s)
+    Cfg.bias = s
+
+
+# narrowed by an assertion: not an equivalence-preserving step, must never be accepted by call_eqv
+kern_asserted = rename(kern.add_assertion("n >= 2"), "kern_asserted")
+
+
 # same signature and text as kern, but of *different origin* (must never be accepted by call_eqv)
 @proc
 def kern_foreign(n: size, x: f32[n], s: f32):
@@ -204,7 +217,7 @@ def _flow_src():
 
 
 PROCS = [direct_rw, read_after_write, dead_write, via_callees, cfg_in_loop, cfg_guarded, bind_me,
-         two_configs, index_cfg, user_of_kern, apply_both]
+         two_configs, index_cfg, user_of_kern, user_of_kern_cfg, apply_both]
 CONFIGS = [Cfg, Other, Flow]
 
 
@@ -219,5 +232,5 @@ def _load_flow():
 
 
 PROCS += _load_flow()
-EQV_PROCS = {"kern_div": kern_div, "kern_cfg": kern_cfg, "kern_wcfg": kern_wcfg,
-             "kern_foreign!": kern_foreign, "kern_wrong!": kern_wrong}
+EQV_PROCS = {"kern_div": kern_div, "kern_cfg": kern_cfg, "kern_wcfg": kern_wcfg, "kern": kern,
+             "kern_foreign!": kern_foreign, "kern_wrong!": kern_wrong, "kern_asserted!": kern_asserted}
